@@ -515,6 +515,27 @@ def c15(run):
 
 
 # ------------------------------------------------------------------------------------------- C11
+def _arraybuild_programs(run, descs, name):
+    import progs
+    import gen_arraybuild as ga
+    ps = progs.ProgSet(run, name)
+    for r in descs.values():
+        if run.tier == "quick" and r["ending"] == "loop" and not (r["n"] == 2 and r["pos"] == 1):
+            continue        # non-terminating programs cost a timeout each: quick keeps one per macro
+        for body, exp, rec, isolate, hostile in ga.cases(r):
+            if hostile:
+                # the property: never an array with an unwritten element; it loops, panics, leaves or does not compile
+                ps.add(body, exp, rec, isolate=isolate,
+                       accept=lambda g: g in ("PANIC", "TIMEOUT", "None", "COMPILE-ERROR"))
+            else:
+                ps.add(body, exp, rec)
+    for body, exp, rec in ga.builder_cases():
+        ps.add(body, exp, rec)
+    for body, exp, rec in ga.stateful_closure_cases():
+        ps.add(body, exp, rec)
+    return ps
+
+
 @check("C11", rule="one program per (macro in map!/map_!/from_fn!/from_fn_!, length 0..3, Copy / non-Copy element, closure "
                     "exit in none/break/continue/return/panic, exit position), plus collect_const! and ArrayBuilder "
                     "under/over-filling programs; the observed ending (value / panic / left the function / does not "
@@ -531,22 +552,7 @@ def c11(run):
         r = json.loads(l)
         descs[(r["form"], r["n"], r["exit"], r["pos"])] = r
     run.samples += list(descs.values())[:3]
-    ps = progs.ProgSet(run, "C11-arraybuild")
-    for r in descs.values():
-        if run.tier == "quick" and r["ending"] == "loop" and not (r["n"] == 2 and r["pos"] == 1):
-            continue        # non-terminating programs cost a timeout each: quick keeps one per macro
-        for body, exp, rec, isolate, hostile in ga.cases(r):
-            if hostile:
-                # the property: never an array with an unwritten element; it loops, panics, leaves or does not compile
-                ps.add(body, exp, rec, isolate=isolate,
-                       accept=lambda g: g in ("PANIC", "TIMEOUT", "None", "COMPILE-ERROR"))
-            else:
-                ps.add(body, exp, rec)
-    for body, exp, rec in ga.builder_cases():
-        ps.add(body, exp, rec)
-    for body, exp, rec in ga.stateful_closure_cases():
-        ps.add(body, exp, rec)
-    ps.execute()
+    _arraybuild_programs(run, descs, "C11-arraybuild").execute()
     # collect_const!: "an array whose length and contents equal collecting the same iterator" for every adapter chain
     # of the iterator-DSL grammar up to depth 2 (the descriptors of IterDsl.tla with the consumer `collect`)
     dsl, coll = vec("C11-IterDsl-d2.ndjson"), vec("C11-IterDsl-collect.ndjson")
@@ -905,7 +911,10 @@ def c01(run):
             fh.write(open(f).read())
     files["Matcher"] = vec("C01-Matcher.ndjson")
     # ArrayBuild: assume_init precondition (no emission needed here)
-    run.mc("MC_ArrayBuild", "ArrayBuild.cfg", env={"OUT": "/dev/null"}, heap="2g", timeout=600)
+    about = vec("C01-ArrayBuild.ndjson")
+    if os.path.exists(about):
+        os.remove(about)
+    run.mc("MC_ArrayBuild", "ArrayBuild.cfg", env={"OUT": about}, heap="2g", timeout=600)
     run.mc("MC_Concat", "Concat.quick.cfg", env={"OUT": vec("C01-Concat.ndjson")}, heap="2g", timeout=600)
     run.sample_file(files["SliceIndex"], k=2)
     # (1) native replay with monitors
@@ -948,6 +957,13 @@ def c01(run):
         rec = {"shard": f}
         run.add_violation({"kind": "vector", "records": [json.loads(l) for l in open(f).readlines()][:1],
                            "detail": {"variant": "miri:undefined-behaviour", "monitor": core.tail(out, 12), "rec": rec}})
+    # (2b) the array-building macros with hostile closures: an array with an unwritten slot is a read of
+    # uninitialised memory (the programs of C11, judged here for C01's "no uninitialised read")
+    adescs = {}
+    for l in open(about):
+        r = json.loads(l)
+        adescs[(r["form"], r["n"], r["exit"], r["pos"])] = r
+    _arraybuild_programs(run, adescs, "C01-arraybuild").execute()
     # (3) const evaluation of the const-fn surface
     ps = progs.ProgSet(run, "C01-consteval")
     import re as _re
